@@ -33,6 +33,7 @@ class Cls : gt::Base<ns::Holder<TT>, TT> {
   enum Mode { M1, M2 };
   Cls(const TT& t, const This::Mode& m = This::Mode::M1);
   This::Mode mode() const;
+  gt::This::Mode qualified(const gt::This::Mode& m, std::vector<gt::This::Mode> ms) const;
   TT::Value value(std::vector<TT> vs, std::map<int, This::Mode> mm) const;
   TT::Traits::Scalar scal(const TT::Traits::Scalar& sc, std::vector<TT::Traits::Scalar> sv) const;
   pair<TT, This> both(TT* p, const This& other);
@@ -51,7 +52,7 @@ template<TT = {%s}>
 TT fun(const TT& a, std::vector<TT::Value> v);
 }
 """
-IN_USE = ["lim", "k", "z", "s", "TTL_MAX", "kVV", "xUUx", "TTraits", "one", "string", "VV", "w", "Build", "key", "Holder", "Traits", "Scalar", "scal", "sc", "sv", "Cls", "Base", "Mode", "M1", "M2", "A", "B", "C", "ns", "gt", "This", "Value", "std", "vector", "map", "int", "pair", "UU", "double",
+IN_USE = ["qualified", "ms", "lim", "k", "z", "s", "TTL_MAX", "kVV", "xUUx", "TTraits", "one", "string", "VV", "w", "Build", "key", "Holder", "Traits", "Scalar", "scal", "sc", "sv", "Cls", "Base", "Mode", "M1", "M2", "A", "B", "C", "ns", "gt", "This", "Value", "std", "vector", "map", "int", "pair", "UU", "double",
           "t", "m", "vs", "mm", "p", "other", "raw", "u", "o", "a", "v", "mode", "value", "both", "Make", "tm", "prop", "fun", "void", "const",
           "operator", "static", "template", "class", "enum", "bool", "char", "size_t", "float", "typedef", "virtual", "namespace", "unsigned"]
 INSTS = ["ns::A", "ns::B", "ns::C"]
